@@ -100,7 +100,11 @@ func (w *World) opCall(a []string) string {
 }
 
 // Call executes a parsed call op (consuming an armed fault) and records it as the last call.
+// Without a world, or with a shard out of range, the status is `badop` and nothing happens.
 func (w *World) Call(c *Call) *CallResult {
+	if c == nil || c.Shard < 0 || c.Shard >= len(w.shards) || c.CallValue == nil {
+		return &CallResult{Status: obsBadOp}
+	}
 	fault := w.fault
 	w.fault = -1
 	res := w.shards[c.Shard].run(w, c, fault)
@@ -108,7 +112,7 @@ func (w *World) Call(c *Call) *CallResult {
 	return res
 }
 
-func (sh *shard) present(w *World, addr []byte) bool {
+func (sh *shard) present(addr []byte) bool {
 	return bytes.Equal(addr, vmcommon.SystemAccountAddress) || sh.coord.ComputeId(addr) == sh.id
 }
 
@@ -142,10 +146,10 @@ func (sh *shard) run(w *World, c *Call, fault int) (res *CallResult) {
 			return
 		}
 		var snd, dst vmcommon.UserAccountHandler
-		if sh.present(w, c.Caller) {
+		if sh.present(c.Caller) {
 			snd = sh.accounts.getOrCreate(c.Caller)
 		}
-		if sh.present(w, c.Rcv) {
+		if sh.present(c.Rcv) {
 			dst = sh.accounts.getOrCreate(c.Rcv)
 		}
 		input := &vmcommon.ContractCallInput{
